@@ -1,7 +1,7 @@
 ------------------------------- MODULE IndDefs -------------------------------
 (* The inductive invariants of the unbounded arguments as parameterised predicates, shared by the
-   integer projections (unbounded/EncLoopInd.tla, proved by Apalache) and by the TLC models
-   (MC_EncLoop: every reachable state of EncLoop, projected, satisfies the predicate). *)
+   integer projections (EncLoopInd.tla and DecLoopInd.tla, proved by Apalache) and by the TLC models
+   (MC_EncLoop: every reachable state of EncLoop, projected, satisfies the predicate; MC_DecLoop: in addition every step of DecLoop is a step of DecLoopInd). *)
 EXTENDS Integers
 
 EncIndInv(CS, L, pc, pos, covered, prevLen, numRead, done, ctr, nsealed, lastNonce) ==
@@ -16,4 +16,23 @@ EncIndInv(CS, L, pc, pos, covered, prevLen, numRead, done, ctr, nsealed, lastNon
   /\ (pc = "failed" => pos - covered <= 2 * CS)
   /\ (done => pos = L)
   /\ ((pc \in {"seal", "write"} /\ done) => numRead = 0)
+
+DecIndInv(CS, A, final, trailing, pc, j, authBytes, out, clen, wrem, eofSeen, res) ==
+  /\ A >= 0 /\ (final => A >= 1) /\ (trailing => final)
+  /\ pc \in {"hdr", "rhdr", "open", "probe", "write", "flush", "end"}
+  /\ j >= 1 /\ authBytes >= 0 /\ out >= 0 /\ clen >= 0 /\ clen <= CS /\ wrem >= 0 /\ wrem <= clen
+  /\ res \in {"run", "ok", "err_read", "err_write", "err_auth", "err_hdr", "err_chunklen", "err_trailing"}
+  /\ (pc = "end") = (res # "run")
+  /\ (pc = "hdr" => j = 1 /\ out = 0 /\ authBytes = 0 /\ clen = 0 /\ wrem = 0)
+  /\ (pc \in {"rhdr", "open"} => out = authBytes /\ wrem = 0 /\ j <= A + 1 /\ (final => j <= A))
+  /\ (pc = "probe" => out + clen = authBytes /\ wrem = 0 /\ j = A /\ final)
+  /\ (pc = "write" => out + wrem = authBytes /\ j <= A /\ wrem >= 1)
+  /\ (pc = "flush" => out = authBytes /\ wrem = 0 /\ j <= A)
+  /\ ((pc \in {"write", "flush"} /\ j = A /\ final) => eofSeen /\ ~trailing)
+  /\ (res = "err_write" => out + wrem = authBytes)
+  /\ (res = "err_trailing" => out + clen = authBytes /\ trailing)
+  /\ (res = "err_read" => out = authBytes \/ out + clen = authBytes)
+  /\ (res \in {"err_auth", "err_hdr", "err_chunklen"} => out = authBytes)
+  /\ out <= authBytes
+  /\ (res = "ok" => final /\ ~trailing /\ j = A /\ eofSeen /\ out = authBytes)
 =============================================================================
